@@ -356,6 +356,9 @@ def run_case(driver, case):
                                 (desc["entry"], desc["kind"].split("_")[0], strip(desc).get("kind"), "/".join(nonfin)),
                                 {"bad": strip(desc), "log": log, "stored": {f: np.asarray(dd_[f], dtype=np.float64).tolist() for f in nonfin}}, True,
                                 {"kind": "overflow-accepted", "entry": desc["entry"], "malformation": desc["kind"]})
+                if desc["kind"] in ("nonfinite", "mea_nonfinite", "obj_nonfinite"):
+                    return ("%s accepted non-finite input (%s) instead of raising" % (desc["entry"], desc["kind"]),
+                            {"bad": strip(desc), "log": log}, True, {"kind": "nonfinite-accepted", "entry": desc["entry"], "malformation": desc["kind"]})
                 if desc["kind"].startswith("extra_"):
                     # a call with a missing / unknown / mis-shaped extra field may only pass when nothing of it reaches the store (every
                     # candidate rejected by the thresholds: the documented "new_data is ignored when no index is left"); if the archive
